@@ -33,7 +33,7 @@ DEST_WRITERS = {"memcpy", "memset", "memmove", "strcpy", "strncpy", "strcat", "s
 DEST_WRITERS |= {"__builtin_" + n for n in list(DEST_WRITERS)} | {"__builtin___%s_chk" % n for n in list(DEST_WRITERS)}
 DEST_WRITERS |= {"__%s_chk" % n for n in ("memcpy", "memset", "memmove", "strcpy", "strncpy", "strcat", "strncat",
                                         "sprintf", "snprintf", "vsprintf", "vsnprintf")}
-ERR_FIELDS = {"isInstanceError", "errStr"}     # members of tjinstance (src/turbojpeg.c)
+ERR_FIELDS = {"isInstanceError", "errStr", "warning"}     # members of tjinstance (src/turbojpeg.c)
 CHARISH = re.compile(r"^(const |volatile )*(unsigned char|signed char|char)( const| volatile)*$")
 
 
